@@ -581,3 +581,31 @@ End ErrorCalc.
 Definition s_loop_count (n : nat) (cb_stop_at : option nat) : nat :=
   let orc := @mkS unit (fun _ st => st) (fun _ => false) (fun it => match cb_stop_at with Some j => Nat.eqb it j | None => false end) (fun st => st) in
   length (snd (@s_loop unit unit (fun _ => tt) orc true true n 0 tt nil)).
+
+(* ---------------------------------------------------------------- PARAFAC2 loop with its observable events *)
+(* p2_loop (legacy = false) instrumented: 5 = _compute_projections (for the update; inside line_step for the candidate), 10 = the inner
+   ALS update, 2 = _parafac2_reconstruction_error (of the updated iterate; inside line_step of the candidate; of the normalised iterate on
+   ordinary iterations), 1 = cp_normalize.  Erasing the events gives p2_loop back (Proofs/ErrorsP2.v:p2_loop_tr_erase). *)
+Section P2Trace.
+Variables (St E : Type) (err : St -> E) (Or : p2oracle St) (ls normalize : bool).
+Fixpoint p2_loop_tr (n it : nat) (cur : St) (errs : list E) (tr : list nat) : St * list E * list nat :=
+  match n with
+  | 0 => (cur, errs, tr)
+  | S n' =>
+      let line := ls && Nat.even it && (5 <? it) in
+      let upd := p2_update Or it cur in
+      let tr1 := tr ++ [5; 10] in
+      let st := if line && p2_accept Or it then p2_jump Or it cur upd else upd in
+      let errs1 := if line then errs ++ [err st] else errs in
+      let tr2 := if line then tr1 ++ [2; 5; 2] else tr1 in
+      let st' := if normalize then p2_norm Or st else st in
+      let tr3 := if normalize then tr2 ++ [1] else tr2 in
+      let errs2 := if line then errs1 else errs1 ++ [err st'] in
+      let tr4 := if line then tr3 else tr3 ++ [2] in
+      if p2_stop Or it then (st', errs2, tr4) else p2_loop_tr n' (S it) st' errs2 tr4
+  end.
+End P2Trace.
+Arguments p2_loop_tr {St E}.
+Definition p2_events (ls normalize : bool) (n : nat) : list nat :=
+  let orc := @mkP2 unit (fun _ st => st) (fun _ _ st => st) (fun _ => true) (fun st => st) (fun _ => false) in
+  snd (@p2_loop_tr unit unit (fun _ => tt) orc ls normalize n 0 tt nil nil).
